@@ -16,7 +16,7 @@ CHECKS = {
                 text="Every hypergraph network with <= 3 (quick) / 4 (thorough) tensors over a 4-label alphabet (dims incl. 1, hyper labels, scalars), every output-label subset in two orders, three stored exponents, is evaluated through every public contraction route and compared with one np.einsum; partial contractions are explored as histories and must keep the denoted value. Exhaustive within those bounds, silent about larger networks and other data.",
                 note="trusted: numpy einsum as the denotation; data from the fixed alphabet; cotengra path finders assumed deterministic"),
     "C02": dict(engine="seq", technique="explicit-state BFS over mutation histories (depth-bounded), fresh-scan invariant in every state", design="3/C02",
-                text="All histories up to depth 2-3 (quick) / 3-4 (thorough) of ~70 public mutation event kinds on five initial worlds (shared tensors, virtual views, repeated labels, colliding inner labels, hyper labels) are executed on real networks; after every transition every live network's ind_map/tag_map/inner/outer/owners/selection results are compared with a fresh scan, and combinations are checked to keep distinct bonds distinct and outer names unchanged. quimb.utils.oset is explored exhaustively over 3 keys against a list model.",
+                text="All histories up to depth 2 (quick) / 3 (thorough) of ~75 public mutation event kinds on five initial worlds (shared tensors, virtual views, repeated labels, colliding inner labels, hyper labels) are executed on real networks; after every transition every live network's ind_map/tag_map/inner/outer/owners/selection results are compared with a fresh scan, and combinations are checked to keep distinct bonds distinct and outer names unchanged. quimb.utils.oset is explored exhaustively over 3 keys against a list model.",
                 note="trusted: the fresh scan; assumes data never influences bookkeeping; canonical-key merging argued in DESIGN 3/C02"),
     "C03": dict(engine="table", technique="reflection-driven exhaustive table: every (f, f_) pair x receiver x axis permutation x insertion order, purity by read-only arrays + fingerprints", design="3/C03",
                 text="Every public plain/in-place method pair discovered by reflection on the tensor and network classes is run on small fixed receivers with a finite argument domain: the plain spelling must leave receiver and arguments bit-identical (arrays made read-only), agree with the in-place spelling on a copy, and be invariant under every axis permutation of every tensor involved and every insertion order.",
